@@ -504,6 +504,36 @@ theorem cond_or {a b : Expr} (iha : CondOK c ρ r a) (ihb : CondOK c ρ r b) : C
   rw [or_core iha ihb hok.1 hok.2 v he _ _ (by simp [trE, vBin, Gen.TranspileOps.orSym, V.selfW, V.isRel, V.isLog])]
   exact truthy_bit _ _
 
+/-! conditional expression `a if c else b`  ->  `((c) ? a : b)` -/
+theorem val_ite {cnd a b : Expr} (ihc : CondOK c ρ r cnd) (iha : ValOK c ρ r a) (ihb : ValOK c ρ r b) :
+    ValOK c ρ r (.ite cnd a b) := by
+  intro v W sg hok he hW hw hsg
+  have hW' : 32 ≤ W := by simpa [isGet] using hW
+  rw [okV] at hok
+  simp only [Bool.and_eq_true] at hok
+  have hsw : V.selfW r (trE c a) ≤ W ∧ V.selfW r (trE c b) ≤ W := by
+    have := hw
+    simp only [trE, V.selfW] at this
+    omega
+  have hsgab : sg = true → V.isSg r (trE c a) = true ∧ V.isSg r (trE c b) = true := by
+    intro hs
+    have := hsg hs
+    simpa [trE, V.isSg] using this
+  simp only [evalD] at he
+  split at he
+  · rename_i x hx
+    have hc := ihc x hok.1.1 hx
+    simp only [trE, V.eval, hc]
+    split at he
+    · rename_i ht
+      rw [ht]
+      exact iha v W sg hok.1.2 he (Or.inl hW') hsw.1 (fun h => (hsgab h).1)
+    · rename_i ht
+      have : Py.truthy x = false := by simpa using ht
+      rw [this]
+      exact ihb v W sg hok.2 he (Or.inl hW') hsw.2 (fun h => (hsgab h).2)
+  · simp at he
+
 /-! assembling the induction -/
 theorem cond_leaf {e : Expr} (ht : Typed c r e) (hl : leaf e = true) (hv : ValOK c ρ r e) (hvc : ∀ h : okC c e = true, okV c e = true) :
     CondOK c ρ r e := by
@@ -570,10 +600,16 @@ theorem trE_both (hA : Agree c ρ r) : ∀ e, Typed c r e → ValOK c ρ r e ∧
     obtain ⟨_, ica⟩ := iha (fun n hn => ht n (by simp [allNames, hn]))
     obtain ⟨_, icb⟩ := ihb (fun n hn => ht n (by simp [allNames, hn]))
     exact ⟨val_or ica icb, cond_or ica icb⟩
-  | ite cnd a b _ _ _ =>
-    intro _
-    constructor
-    · intro v W sg hok; rw [okV] at hok; cases hok
-    · intro v hok; rw [okC] at hok; cases hok
+  | ite cnd a b ihc iha ihb =>
+    intro ht
+    obtain ⟨_, icc⟩ := ihc (fun n hn => ht n (by simp [allNames, hn]))
+    obtain ⟨iva, _⟩ := iha (fun n hn => ht n (by simp [allNames, hn]))
+    obtain ⟨ivb, _⟩ := ihb (fun n hn => ht n (by simp [allNames, hn]))
+    have hv := val_ite icc iva ivb
+    refine ⟨hv, ?_⟩
+    intro v hok he
+    rw [okC] at hok
+    simp only [Bool.and_eq_true, decide_eq_true_eq] at hok
+    exact cond_from_val hv v hok.1 he (Or.inl (by rw [selfW_trE c r _ ht]; exact hok.2))
 
 end C02
